@@ -294,7 +294,16 @@ func TestVerifReplay(t *testing.T) {
 	if _, err := NewSM2Point().SetBytes(bad); err == nil { t.Fatalf("(0,0) accepted") }
 	comp := append([]byte{2}, cases[0].p[1:33]...)
 	if _, err := NewSM2Point().SetBytes(comp); err == nil { t.Fatalf("compressed encoding accepted") }
-}''' % '\n'.join(rows)
+	// a failed decode must leave the receiver untouched: off-curve, non-canonical, wrong length, wrong first byte
+	for j, in := range [][]byte{%s} {
+		recv, _ := NewSM2Point().SetBytes(cases[0].p)
+		before := recv.Bytes()
+		if _, err := recv.SetBytes(in); err == nil { t.Fatalf("invalid encoding %%d accepted", j) }
+		if !bytes.Equal(recv.Bytes(), before) { t.Fatalf("invalid encoding %%d: receiver modified although decoding failed", j) }
+	}
+}''' % ('\n'.join(rows), ', '.join(go_bytes(x) for x in [
+        [4] + b32(ref.G[0]) + b32(ref.G[1] ^ 1), [4] + b32(P) + b32(1), [4] + b32(1) + b32(P + 5), [4] + b32(ref.G[0]) + b32(ref.G[1])[:31],
+        [5] + b32(ref.G[0]) + b32(ref.G[1]), [0, 0], [4] + [0xff] * 64]))
     okr, outr, pathr = ck.go_test('sm2/internal', src, name='points')
     if okr is True:
         ck.validated += len(pairs)
